@@ -3,6 +3,7 @@ import AcraModel.CrossClient.Hash
 import AcraModel.CrossClient.Context
 import AcraModel.CrossClient.Keys
 import AcraModel.CrossClient.Token
+import AcraModel.CrossClient.TokenColumn
 import AcraModel.CrossClient.Tls
 import AcraModel.CrossClient.TlsIdentity
 import AcraModel.CrossClient.TlsIdentityInj
@@ -282,6 +283,115 @@ theorem cross_client_detokenize_own {c : CryptoOps} (ops : List TokOp) (b tok r 
   rcases cross_client_detokenize ops b tok r ty h with h | ⟨op, hop, hc, hv⟩
   · exact Or.inl h
   · exact Or.inr ⟨op, hop, hnc op hop hc, hv⟩
+
+/-! ## tokenized columns behind the SQL proxies: which identity reaches the tokenizer -/
+
+/-- **The read path takes the identity of the SESSION.** `TokenProcessor.OnColumn` builds exactly one
+`TokenContext`; its `ClientID` element is `accessContext.GetClientID()`, `accessContext` being
+`base.AccessContextFromContext(ctx)` and nothing else; that context is what it hands to `Detokenize`.
+(A client id taken from the column setting – `columnSetting.ClientID()` – changes this table.) Regenerated. -/
+theorem fact_token_read_uses_session_id :
+    TokenColumn.readContextLiterals = 1 ∧
+    TokenColumn.readContextClientID = [("init", "accessContext.GetClientID()")] ∧
+    TokenColumn.readLocals = [("accessContext", [("init", "base.AccessContextFromContext(ctx)")])] ∧
+    TokenColumn.readContextVar = "tokenContext" ∧
+    TokenColumn.readDetokenizeCall = ["p.tokenizer.Detokenize", "data", "tokenContext", "columnSetting"] ∧
+    readSource = .session := by decide
+
+/-- **The write path.** `TokenEncryptor.EncryptWithClientID` puts its own `clientID` parameter into the token
+context it hands to `Tokenize`; every call of an `EncryptWithClientID` in the source tree either hands the
+caller's own client-id parameter on, or passes "the column's `client_id` when the encryptor config names one,
+otherwise the session's" – and the sites that choose are the five statement / parameter / search-literal
+encryptors of the two proxies. Regenerated. -/
+theorem fact_token_write_sites :
+    TokenColumn.encryptorParams.head? = some "clientID" ∧
+    TokenColumn.encryptorContextClientID = [("param", "clientID")] ∧
+    TokenColumn.encryptorTokenizeCall = ["e.tokenizer.Tokenize", "data", "tokenContext", "setting"] ∧
+    encryptorSource = .param ∧
+    (∀ r ∈ TokenColumn.writeCallSites, idSourceOf r.2.2 = .param ∨ idSourceOf r.2.2 = .columnOrSession) ∧
+    choosingWriteSites.map (·.1) = [
+      "decryptor/mysql/prepared_statement_sql_observer.go:PreparedStatementsQuery.handleColumnFromSetArg",
+      myWriteSite, pgWriteSite,
+      "pseudonymization/mysql_tokenize_query.go:MySQLTokenizeQuery.getTokenizerDataWithSetting",
+      "pseudonymization/postgresql_tokenize_query.go:PostgreSQLTokenizeQuery.getTokenizerDataWithSetting"] ∧
+    writeSourceOf pgWriteSite = .columnOrSession ∧ writeSourceOf myWriteSite = .columnOrSession := by decide
+
+/-- **`proxy_token_read_is_session`.** For EVERY column setting – with or without an explicit `client_id` – and
+every session identity `b`, the read path of a tokenized column de-tokenizes under `b`: the identity used is
+the session's, never the column's. -/
+theorem proxy_token_read_is_session (c : CryptoOps) (st : TokStore) (b : Bytes) (col : ColSetting) (data : Bytes) :
+    onColumnToken c st b (some col) data = (if col.tokenized then detokenize c st b data col.ty else .ok data) := by
+  unfold onColumnToken onColumnTokenWith
+  rw [fact_token_read_uses_session_id.2.2.2.2.2]
+  rfl
+
+/-- … and every write site of the proxies tokenizes under `ownerOf session column`: the client the column is
+configured for, else the client of the writing session – for both statement encryptors. -/
+theorem proxy_token_write_is_owner (c : CryptoOps) (st : TokStore) (session : Bytes) (col : ColSetting) (v : Bytes) (cands : List Bytes) :
+    ∀ site ∈ [pgWriteSite, myWriteSite],
+      proxyWrite c (writeSourceOf site) st session col v cands =
+        (if col.tokenized then
+          (if col.consistent then tokenize c st (ownerOf session col) v col.ty cands else anonymize c st (ownerOf session col) v col.ty cands)
+         else .ok (st, v)) := by
+  intro site hs
+  have hsrc : writeSourceOf site = .columnOrSession := by
+    simp only [List.mem_cons, List.not_mem_nil, or_false] at hs
+    rcases hs with h | h
+    · rw [h]; exact fact_token_write_sites.2.2.2.2.2.2.1
+    · rw [h]; exact fact_token_write_sites.2.2.2.2.2.2.2
+  unfold proxyWrite tokenEncrypt
+  rw [hsrc, fact_token_write_sites.2.2.2.1]
+  rfl
+
+/-- **`cross_client_column_detokenize`.** After ANY history of values written through the proxies (any
+sessions, any column settings – with or without `client_id`, consistent or not, any token type –, any random
+draws) starting from an empty token storage, a session of identity `b` that selects a tokenized column –
+whatever that column's configured `client_id` is – and finds `tok` there receives either `tok` itself,
+unchanged, or a value whose OWNER (`ownerOf`: the client the written column was configured for, else the writing
+session's client) has the same context digest as `b`. -/
+theorem cross_client_column_detokenize {c : CryptoOps} (ops : List ColOp) (b : Bytes) (col : ColSetting) (tok r : Bytes)
+    (h : onColumnToken c (runCol c .columnOrSession [] ops) b (some col) tok = .ok r) :
+    r = tok ∨ ∃ op, op ∈ ops ∧ op.col.tokenized = true ∧ aggCtx c (ownerOf op.session op.col) = aggCtx c b ∧ op.v = r := by
+  rw [proxy_token_read_is_session] at h
+  by_cases ht : col.tokenized = true
+  · rw [if_pos ht] at h
+    have hinv : OwnedCol c .columnOrSession (ops.reverse ++ []) (runCol c .columnOrSession [] ops) :=
+      runCol_owned fact_token_write_sites.2.2.2.1 ops [] [] (by intro e he; cases he)
+    rcases detokenize_owned hinv h with h1 | ⟨op, hop, h0, h1, h2⟩
+    · exact Or.inl h1
+    · exact Or.inr ⟨op, by simpa using hop, h0, h1, h2⟩
+  · rw [if_neg ht] at h
+    cases h
+    exact Or.inl rfl
+
+/-- … with a collision-free SHA-256 on the identities at hand: `b` gets the token back or a value that `b` owns. -/
+theorem cross_client_column_detokenize_own {c : CryptoOps} (ops : List ColOp) (b : Bytes) (col : ColSetting) (tok r : Bytes)
+    (hnc : ∀ op, op ∈ ops → aggCtx c (ownerOf op.session op.col) = aggCtx c b → ownerOf op.session op.col = b)
+    (h : onColumnToken c (runCol c .columnOrSession [] ops) b (some col) tok = .ok r) :
+    r = tok ∨ ∃ op, op ∈ ops ∧ ownerOf op.session op.col = b ∧ op.v = r := by
+  rcases cross_client_column_detokenize ops b col tok r h with h | ⟨op, hop, _, hc, hv⟩
+  · exact Or.inl h
+  · exact Or.inr ⟨op, hop, hnc op hop hc, hv⟩
+
+/-- **The case of the property.** No value of the history is owned by an identity whose context digest equals
+`b`'s (they were written into columns configured with another client's id – by whatever session, `b`'s included –
+or into columns without `client_id` by other clients' sessions). Then a session of `b` reading ANY tokenized
+column – in particular one configured with `client_id: a` – gets what is stored back unchanged: never a plaintext. -/
+theorem cross_client_column_token_back {c : CryptoOps} (ops : List ColOp) (b : Bytes) (col : ColSetting) (tok r : Bytes)
+    (hnc : ∀ op, op ∈ ops → op.col.tokenized = true → aggCtx c (ownerOf op.session op.col) ≠ aggCtx c b)
+    (h : onColumnToken c (runCol c .columnOrSession [] ops) b (some col) tok = .ok r) : r = tok := by
+  rcases cross_client_column_detokenize ops b col tok r h with h | ⟨op, hop, ht, hc, _⟩
+  · exact h
+  · exact absurd hc (hnc op hop ht)
+
+/-- … under idealised collision freedom of SHA-256 (`HashInj`) "owned by someone else" is enough: for every
+owner `a ≠ b` of every value, the session of `b` gets the stored token back. -/
+theorem cross_client_column_token_back_inj {c : CryptoOps} (hi : HashInj c) (ops : List ColOp) (b : Bytes) (col : ColSetting) (tok r : Bytes)
+    (hother : ∀ op, op ∈ ops → op.col.tokenized = true → ownerOf op.session op.col ≠ b)
+    (h : onColumnToken c (runCol c .columnOrSession [] ops) b (some col) tok = .ok r) : r = tok := by
+  apply cross_client_column_token_back ops b col tok r _ h
+  intro op hop ht heq
+  exact hother op hop ht (List.append_cancel_left (hi.sha_inj _ _ heq))
 
 /-! ## stored keys are bound to their owner -/
 
@@ -728,6 +838,32 @@ example : detokenize boxOps (runTok boxOps [] exTokOps) exA [7, 7, 7] 4 = .ok [1
     detokenize boxOps (runTok boxOps [] exTokOps) exB [7, 7, 7] 4 = .ok [2, 2, 2] ∧
     detokenize boxOps (runTok boxOps [] exTokOps) exB [8, 8, 8] 4 = .ok [8, 8, 8] ∧
     detokenize boxOps (runTok boxOps [] exTokOps) exA [8, 8, 8] 4 = .ok [3, 3, 3] := by decide
+
+/-- tokenized columns behind the proxies: a session of B writes into a column configured with `client_id: A`
+(the value is A's) and into a column without `client_id` (the value is B's); both draw the same token bytes.
+A reads its value; a third session C gets the token back unchanged from either column; B – who owns a record
+under the very same token bytes – gets its OWN value, from either column, never A's; the hypothesis of
+`cross_client_column_token_back_inj` holds for C. -/
+def exColA : ColSetting := ⟨exA, true, true, 4⟩
+def exColNone : ColSetting := ⟨[], true, false, 4⟩
+def exColPlain : ColSetting := ⟨exA, false, false, 0⟩
+def exC : Bytes := [99, 97, 114, 111, 108]        -- "carol"
+def exColOps : List ColOp := [⟨exB, exColA, [1, 1, 1], [[7, 7, 7]]⟩, ⟨exB, exColNone, [2, 2, 2], [[7, 7, 7]]⟩, ⟨exC, exColPlain, [3, 3, 3], []⟩]
+def exColStore : TokStore := runCol boxOps .columnOrSession [] exColOps
+
+example : ownerOf exB exColA = exA ∧ ownerOf exB exColNone = exB ∧
+    onColumnToken boxOps exColStore exA (some exColA) [7, 7, 7] = .ok [1, 1, 1] ∧
+    onColumnToken boxOps exColStore exB (some exColA) [7, 7, 7] = .ok [2, 2, 2] ∧
+    onColumnToken boxOps exColStore exC (some exColA) [7, 7, 7] = .ok [7, 7, 7] ∧
+    onColumnToken boxOps exColStore exC (some exColNone) [7, 7, 7] = .ok [7, 7, 7] ∧
+    onColumnToken boxOps exColStore exB (some exColNone) [7, 7, 7] = .ok [2, 2, 2] ∧
+    onColumnToken boxOps exColStore exA (some exColPlain) [7, 7, 7] = .ok [7, 7, 7] ∧
+    onColumnToken boxOps exColStore exA none [7, 7, 7] = .ok [7, 7, 7] ∧
+    (∀ op, op ∈ exColOps → op.col.tokenized = true → ownerOf op.session op.col ≠ exC) := by decide
+
+/-- the regenerated fact is load-bearing: a read path that took the column's `client_id` when there is one
+(the choice of the WRITE side) would hand A's value to a session of C -/
+example : onColumnTokenWith boxOps .columnOrSession exColStore exC (some exColA) [7, 7, 7] = .ok [1, 1, 1] := by decide
 
 /-- stored keys: a key can be saved for A (the premise of `stored_key_bound_v1/2` is satisfiable) and
 loads for A -/
